@@ -35,7 +35,8 @@ def family(layout: str) -> str:
 
 
 NESTED_LAYOUT_BY_SUFFIX = [(".tar.gz", "tar.gz"), (".tgz", "tar.gz"), (".tar.bz2", "tar.bz2"), (".tbz2", "tar.bz2"), (".tar.xz", "tar.xz"), (".txz", "tar.xz"),
-                           (".tar", "tar"), (".zip", "zip-stored"), (".7z", "7z-copy-solid"), (".gz", "tar.gz"), (".bz2", "tar.bz2"), (".xz", "tar.xz")]
+                           (".tar", "tar"), (".zip", "zip-stored"), (".7z", "7z-copy-solid"), (".gz", "tar.gz"), (".bz2", "tar.bz2"), (".xz", "tar.xz"),
+                           (".tbz", "tar.bz2"), (".tb2", "tar.bz2"), (".taz", "tar.gz"), (".tz", "tar.gz"), (".tlz", "tar.xz")]
 
 
 def nested_for(name: str, inner_members: list[dict]) -> bytes:
@@ -45,7 +46,7 @@ def nested_for(name: str, inner_members: list[dict]) -> bytes:
     for suf, layout in NESTED_LAYOUT_BY_SUFFIX:
         if low.endswith(suf):
             return build(layout, inner_members)
-    raise ValueError(name)
+    return build("tar.gz", inner_members)       # any other archive-like name: the type is sniffed from the bytes anyway
 
 
 def tar_format(layout: str) -> str:
@@ -57,14 +58,14 @@ def ext_of(layout: str) -> str:
     return EXT[family(layout)]
 
 
-def build(layout: str, members: list[dict], *, dict_size: int | None = None, substreams: bool = True) -> bytes:
+def build(layout: str, members: list[dict], *, dict_size: int | None = None, substreams: bool = True, bare_empty: bool = False) -> bytes:
     """``dict_size`` (7z LZMA / LZMA2 folders: dictionary used and declared) and ``substreams`` (7z: write the SubStreamsInfo section)
     only matter for 7z layouts; a member's ``declared_size`` is honoured by the 7z writer (digests are left out then)."""
     fam = family(layout)
     if fam == "zip":
         return _zip(members, zipfile.ZIP_STORED if layout == "zip-stored" else zipfile.ZIP_DEFLATED)
     if fam == "7z":
-        return _7z(layout, members, dict_size, substreams)
+        return _7z(layout, members, dict_size, substreams, bare_empty)
     return _tar(members, {"tar": "w", "tar.gz": "w:gz", "tar.bz2": "w:bz2", "tar.xz": "w:xz"}[fam], TAR_FORMATS[tar_format(layout)])
 
 
@@ -142,7 +143,7 @@ def _tar(members, mode, fmt=tarfile.PAX_FORMAT) -> bytes:
     return bio.getvalue()
 
 
-def _7z(layout: str, members, dict_size=None, substreams=True) -> bytes:
+def _7z(layout: str, members, dict_size=None, substreams=True, bare_empty=False) -> bytes:
     parts = layout.split("-")
     enc = layout.endswith("-enchdr")
     if parts[1] == "mixed":
@@ -162,4 +163,4 @@ def _7z(layout: str, members, dict_size=None, substreams=True) -> bytes:
         # links / devices have no 7z form in this writer
     forged = any(e.get("declared_size") is not None for e in entries)
     return sevenz.make_7z(entries, coder=coder, layout=lay, encoded_header=enc, mixed_coders=mixed, dict_size=dict_size,
-                          with_substreams=substreams, with_crc=not forged)
+                          with_substreams=substreams, with_crc=not forged, bare_empty=bare_empty)
